@@ -125,6 +125,107 @@ def oracle(ctx, world):
         model[name] = rows
 
 
+def borrowed_and_factory_cases(ctx):
+    """single calls on borrowed / read-only buffers and on objects built by the copying factories, judged by the list model"""
+    import numpy as np
+    from nitypes.waveform import AnalogWaveform, ComplexWaveform, DigitalWaveform, Spectrum
+    from props.common import outcome, show
+
+    def rows(obs):
+        dtype, shape, raw = obs["data"]
+        a = np.frombuffer(raw, dtype).reshape(shape)
+        return [[complex(v) if a.dtype.kind == "c" else float(v) for v in np.atleast_1d(r)] for r in a]
+
+    def judge(info, w, before, o, after):
+        if "UNOBSERVABLE" in after:
+            ctx.violation(what="object can no longer be observed after a call", observed=str(after)[:200], required="a consistent waveform", **info)
+            return False
+        if o[0] == "err":
+            if after != before:
+                diff = [k for k in before if before.get(k) != after.get(k)]
+                ctx.violation(what="a rejected call lost / changed samples or geometry", changed=str(diff), observed=str({k: after.get(k) for k in diff})[:300],
+                              required=str({k: before.get(k) for k in diff})[:300], **info)
+                return False
+            return True
+        b, a = rows(before), rows(after)
+        call = info["call"]
+        ncols = len(b[0]) if b else (2 if info["ndim"] == 2 else 1)
+        one = [1.0 + 0j if isinstance((b or [[0.0]])[0][0], complex) else 1.0] * ncols
+        if call.startswith("append-array-") or call.startswith("append-waveform-"):
+            exp = b + [one] * int(call.rsplit("-", 1)[1])
+        elif call.startswith("append-waveforms-"):
+            exp = b + [one] * int(call.rsplit("-", 1)[1])
+        elif call.startswith("load-copy-"):
+            exp = [one] * len(a)
+        else:
+            exp = b
+        ok = a == exp and after["count"] == len(a) and after["start"] + after["count"] <= after["capacity"]
+        if not ok:
+            ctx.violation(what="view differs from the list model after an accepted call", observed=str(a)[:200], required=str(exp)[:200], **info)
+            return False
+        return True
+    n = H.borrowed_cases(ctx, judge, quick_subset=ctx.quick)
+    # objects built by the copying factories own their samples: every growth must succeed and keep the samples
+    rng = ctx.rng
+    for cls, dtype in ((AnalogWaveform, np.float64), (AnalogWaveform, np.int16), (ComplexWaveform, np.complex128), (Spectrum, np.float64)):
+        base = (np.arange(12) % 7).astype(dtype).reshape(3, 4)
+        sources = {"2d-array": base, "2d-F": np.asfortranarray(base), "2d-view": np.arange(40).astype(dtype).reshape(5, 8)[1:4, 2:6],
+                   "2d-nested": base.tolist() if dtype != np.complex128 else [[complex(v) for v in r] for r in base.tolist()]}
+        for sname, src in sources.items():
+            for op in ("append", "load", "capacity", "append-waveform"):
+                o = outcome(lambda: cls.from_array_2d(src, dtype, copy=True))
+                if o[0] != "ok":
+                    ctx.violation(what="from_array_2d refused valid input", cls=cls.__name__, source=sname, observed=show(o)[:200], required="waveforms")
+                    return n
+                for i, w in enumerate(o[1]):
+                    row = [v for v in np.asarray(src)[i].tolist()]
+                    n += 1
+                    ctx.case(("factory", cls.__name__, str(np.dtype(dtype)), sname, op, i))
+                    more = np.arange(1, 4).astype(dtype)
+                    getd = (lambda x: x.data) if cls is Spectrum else (lambda x: x.raw_data)
+                    if op == "append":
+                        r = outcome(lambda: w.append(more)); exp = row + more.tolist()
+                    elif op == "load":
+                        big = np.arange(9).astype(dtype)
+                        r = outcome(lambda: w.load_data(big)); exp = big.tolist()
+                    elif op == "capacity":
+                        r = outcome(lambda: setattr(w, "capacity", 11)); exp = row
+                    else:
+                        other = cls.from_array_1d(more, dtype)
+                        r = outcome(lambda: w.append(other)); exp = row + more.tolist()
+                    got = getd(w).tolist() if r[0] == "ok" else None
+                    if r[0] != "ok" or got != exp:
+                        ctx.violation(what="a waveform built by from_array_2d(copy=True) could not grow / lost samples", cls=cls.__name__, source=sname,
+                                      row=i, op=op, observed=show(r)[:160] if r[0] != "ok" else str(got), required=str(exp))
+                        return n
+    for label, mk in (("from_lines-1d", lambda: DigitalWaveform.from_lines(np.array([1, 0, 1], np.uint8))),
+                      ("from_lines-2d", lambda: DigitalWaveform.from_lines(np.array([[1, 0], [0, 1]], np.uint8))),
+                      ("from_lines-view", lambda: DigitalWaveform.from_lines(np.arange(12, dtype=np.uint8).reshape(6, 2)[1:4] % 2)),
+                      ("from_lines-list", lambda: DigitalWaveform.from_lines([[1, 0], [0, 1]])),
+                      ("from_port", lambda: DigitalWaveform.from_port(np.array([1, 2, 3], np.uint8), 0x03)),
+                      ("from_ports", lambda: DigitalWaveform.from_ports(np.array([[1, 2, 3], [4, 5, 6]], np.uint8), [0x03, 0x07])[1])):
+        for op in ("append", "capacity", "load"):
+            w = mk()
+            b = w.data.tolist()
+            nc = w.signal_count
+            n += 1
+            ctx.case(("factory", "DigitalWaveform", label, op))
+            if op == "append":
+                extra = np.ones((4, nc), np.uint8)
+                r = outcome(lambda: w.append(extra)); exp = b + extra.tolist()
+            elif op == "capacity":
+                r = outcome(lambda: setattr(w, "capacity", w.capacity + 5)); exp = b
+            else:
+                big = np.zeros((w.capacity + 3, nc), np.uint8)
+                r = outcome(lambda: w.load_data(big)); exp = big.tolist()
+            got = w.data.tolist() if r[0] == "ok" else None
+            if r[0] != "ok" or got != exp:
+                ctx.violation(what="a DigitalWaveform built by a copying factory could not grow / lost samples", factory=label, op=op,
+                              observed=show(r)[:160] if r[0] != "ok" else str(got)[:200], required=str(exp)[:200])
+                return n
+    return n
+
+
 def run(ctx):
     world = H.World(ctx.rng)
     n_hist = 160 if ctx.quick else 5000
@@ -147,6 +248,7 @@ def run(ctx):
         if r["kind"]:
             ctx.count("class", r["kind"])
     ctx.extra["histories"] = n_hist + n_valid
+    ctx.extra["borrowed_and_factory_calls"] = borrowed_and_factory_cases(ctx)
     ctx.extra["model_lines_compared"] = H.compare_with_model(ctx, world)
     for line, exp in list(zip(world.lines, world.expect))[5:400:60]:
         ctx.sample({"request": line[:200], "response": exp[:200]})
